@@ -249,13 +249,15 @@ def main():
             "enable": "the harness crate depends on rdest with features = [\"verif\"] (path = /repo); cargo build --features verif",
             "baseline_off_cmd": "cd /repo && cargo test --workspace --no-fail-fast --offline",
             "source_commits": [c for c in commits if c],
-            "add_only": True,
+            "add_only": False,
         },
         "engines": [{"name": "coq-proof+correspondence", "path": "coq/ tools/ harness/",
                      "serves_properties": sorted(CHECKS),
                      "kind_free_text": "Coq 8.16 development (models, specs, proofs), constants translator, Rust differential harness, in-Coq evaluation of model and oracle"}],
         "checks": [],
-        "notes": "See DESIGN.md. Known findings: known_findings.json.",
+        "notes": "See DESIGN.md. Known findings: known_findings.json. Hooks: all add-only except two lines of src/connection.rs "
+                 "(the socket type became a cfg-selected alias, TcpStream with the feature off, so that the receive loop under test is "
+                 "shared by the TCP and the in-memory transport). 25 fix: commits repair genuine defects the checks found.",
         "not_applicable": [],
     }
     for pid in sorted(CHECKS):
